@@ -66,10 +66,12 @@ P["C03"] = {
     "assumptions": A_CORE + A_FILE,
 }
 P["C04"] = {
-    "common": {"validate": 4, "ignore_kinds": ["alloc", "unwind"], "runs": [{"pattern": "verifHarness_C0304_", "label_filter": "C04:"}]},
+    "common": {"validate": 4, "ignore_kinds": ["alloc", "unwind"], "runs": [
+        {"pattern": "verifHarness_C0304_", "label_filter": "C04:"},
+        {"pattern": "verifHarness_C05_embedded", "label_filter": "C05:"}]},
     "thorough": {"validate": 16},
     "bounds": "same exploration as C03: for each of the 129 pairs the same bytes (incl. size-prefixed and two-block collections, unions, nested records) are decoded into the full target and into an empty struct (every field skipped): skipping must succeed and consume exactly everything; 9 projections of a 5-field record (permuted; each of slice/map/nested-record field deleted; only the last field kept; three fields added; nested fields deleted) keep the values of the remaining fields and leave added fields zero",
-    "outside": "invalid byte sizes (C06's subject); records of more than 5 fields; fixed",
+    "outside": "invalid byte sizes (C06's subject); records of more than 5 fields; fixed. Targets that embed a struct anonymously (a schema field that exists in the target only as a promoted field) are covered by harness C05_embedded, run here too: the sibling fields keep their values",
     "assumptions": A_CORE,
 }
 P["C05"] = {
